@@ -526,8 +526,9 @@ func (inp Input) ABIType(pos int) (int, atype) {
 		}
 		base = tuple(fields...)
 	case strings.HasPrefix(inp.Type, "bytes"):
+		elem, _, _ := strings.Cut(inp.Type, "[")
 		switch {
-		case strings.TrimSuffix(strings.TrimPrefix(inp.Type, "bytes"), "[") == "":
+		case elem == "bytes":
 			base = dynamic()
 		default:
 			base = static()
